@@ -3,7 +3,7 @@ from .common import H
 # Case plan sizes of the two harnesses (printed by `<harness> --param plan=1`): cases [0,E) are the exhaustively
 # enumerated sub-spaces (fixed slices), cases >= E cycle through the R random families.
 E_BLOCKS, R_BLOCKS = 66, 46
-E_GRAPH, R_GRAPH = 41, 78
+E_GRAPH_QUICK, E_GRAPH_THOROUGH, R_GRAPH = 40, 41, 78
 R_GRAPHOBJ = 14  # random families of the graph-object components (--param focus=graphobj)
 
 ENV = dict(GALOIS_DEBUG_SKIP=1)  # Debug builds: do not print gDebug lines (their arguments are still evaluated)
@@ -13,10 +13,10 @@ def c13(tier):
     runs = []
     if tier == "quick":
         runs.append(H("c13_blocks", "asan", E_BLOCKS + 3 * R_BLOCKS, None, env=ENV, timeout_per_case=30))
-        runs.append(H("c13_graphdiv", "asan", E_GRAPH + R_GRAPH, None, env=ENV, timeout_per_case=60))
+        runs.append(H("c13_graphdiv", "asan", E_GRAPH_QUICK + R_GRAPH, None, env=ENV, timeout_per_case=60))
         # release code path (NDEBUG: no asserts, -O2) of everything, random families with other seeds-per-case
         runs.append(H("c13_blocks", "plain", E_BLOCKS + 3 * R_BLOCKS, "3,5", env=ENV, timeout_per_case=30))
-        runs.append(H("c13_graphdiv", "plain", E_GRAPH + R_GRAPH, None, env=ENV, timeout_per_case=60))
+        runs.append(H("c13_graphdiv", "plain", E_GRAPH_QUICK + R_GRAPH, None, env=ENV, timeout_per_case=60))
         # thread/socket dependent parts on multi-socket virtual topologies
         runs.append(H("c13_graphdiv", "asan", R_GRAPHOBJ, "4,4,4,4", env=ENV, params=dict(focus="graphobj"),
                       timeout_per_case=60))
@@ -24,9 +24,9 @@ def c13(tier):
                       timeout_per_case=60))
     else:
         runs.append(H("c13_blocks", "asan", E_BLOCKS + 6 * R_BLOCKS, None, env=ENV, timeout_per_case=60))
-        runs.append(H("c13_graphdiv", "asan", E_GRAPH + 3 * R_GRAPH, None, env=ENV, timeout_per_case=240))
+        runs.append(H("c13_graphdiv", "asan", E_GRAPH_THOROUGH + 3 * R_GRAPH, None, env=ENV, timeout_per_case=240))
         runs.append(H("c13_blocks", "plain", E_BLOCKS + 6 * R_BLOCKS, "3,5", env=ENV, timeout_per_case=60))
-        runs.append(H("c13_graphdiv", "plain", E_GRAPH + 3 * R_GRAPH, None, env=ENV, timeout_per_case=240))
+        runs.append(H("c13_graphdiv", "plain", E_GRAPH_THOROUGH + 3 * R_GRAPH, None, env=ENV, timeout_per_case=240))
         for cfg, topo in (("asan", "4,4,4,4"), ("plain", "3,5"), ("asan", "smt:2x2x2"), ("plain", "12,12,8"),
                           ("asan", "1,1,1,1"), ("plain", "8,8")):
             runs.append(H("c13_graphdiv", cfg, 2 * R_GRAPHOBJ, topo, env=ENV, params=dict(focus="graphobj"),
@@ -49,12 +49,17 @@ SPEC = dict(
                "determine_block_division, divideNodesBinarySearch (node/edge weights incl. 0, scale factors incl. 0, node/edge "
                "offsets, vector/LargeArray/pointer/PODResizeableArray/formula prefix sums, uint32/uint64 nodes), "
                "determineUnitRangesFromPrefixSum/FromGraph (whole and sub-range), FileGraph::divideByNode/divideByEdge "
-               "(FileGraphWriter, fromFile, partFromFile), OfflineGraph::divideByNode (v1/v2 files, scale factors) and "
+               "(FileGraphWriter, fromFile, partFromFile), OfflineGraph::divideByNode (v1/v2 files, scale factors), "
                "LC_CSR_Graph thread ranges (readGraph with blocked and NUMA local ranges, constructFrom(prefix)+"
-               "initializeLocalRanges, member divideByNode). Exhaustive over all (size<=200, parts<=40, index) triples of "
-               "block_range for every type and over all prefix sums of <=7 nodes with degrees in {0,1,2,5} (smaller bounds "
-               "for the file based components, see the variant names); everything else sampled. The statement's proof for "
-               "all 64-bit sizes is NOT established: only the enumerated and sampled inputs were observed.",
+               "initializeLocalRanges, member divideByNode) and, in the thorough tier, DistGraph::computeMasters host ranges "
+               "under MPI. Exhaustive (quick tier bounds): all (size<=200, parts<=40, index) triples of block_range for each "
+               "of the 13 types; all prefix sums of <=7 nodes with degrees in {0,1,2,5} x parts 1..9 x 5 weightings for "
+               "divideNodesBinarySearch and x 3 node weights for determineUnitRangesFromPrefixSum; <=6 nodes for all sub-ranges, "
+               "all node/edge offsets, FromGraph and FileGraph::divideByNode; <=5 nodes for all scale-factor vectors over "
+               "{0..3} with <=4 parts, OfflineGraph and divideByEdge; all thread_beginnings/sub-range combinations of <=6 nodes "
+               "and <=4 threads for SpecificRange. Everything else is sampled (random large inputs, 2^32 parts, sizes at the "
+               "overflow thresholds). The statement's proof for all 64-bit sizes is NOT established: only the enumerated and "
+               "sampled inputs were observed.",
     level_note="Trusts the reference oracle (60 lines, no Galois code) and, for non-random-access iterators, that element i of "
                "the test containers holds i. With 2^32 parts only windows of part indices are called; the oracle then only "
                "draws conclusions that are valid for the sampled indices.",
@@ -63,9 +68,19 @@ SPEC = dict(
          "counts); each case makes thousands of calls (obs.calls) grouped in divisions (all part indices of one input). "
          "Non-trivial iff at least one division returned >=2 non-empty pieces. Distinct by (component, family, variant/slice, "
          "whether divisions with more parts than elements, zero-sized inputs and sampled part indices occurred).",
-    require={"calls": 10_000_000, "divisions": 500_000, "multi_piece_divisions": 300_000, "exhaustive_triples": 9_000_000,
-             "more_parts_than_elems": 50_000, "zero_size_inputs": 1_000, "threshold_divisions": 1_000,
-             "sampled_divisions": 500, "empty_pieces": 100_000, "secondary_range_checks": 100_000},
+    # minimum observed totals of a complete run (quick tier values; the exhaustive counters are deterministic:
+    # e.g. block_range_int = 5 types x 201 sizes x 820 (parts,index) pairs x 2 build configs)
+    require={"calls": 40_000_000, "divisions": 8_000_000, "multi_piece_divisions": 5_000_000,
+             "exhaustive_triples": 52_000_000,
+             "exhaustive_triples.block_range_int": 1_648_200, "exhaustive_triples.block_range_iter": 2_637_120,
+             "exhaustive_triples.divideNodesBinarySearch": 25_000_000,
+             "exhaustive_triples.determineUnitRangesFromPrefixSum": 17_900_000,
+             "exhaustive_triples.determineUnitRangesFromGraph": 2_200_000,
+             "exhaustive_triples.FileGraph::divideByNode": 780_000, "exhaustive_triples.OfflineGraph::divideByNode": 750_000,
+             "exhaustive_triples.StandardRange": 600_000, "exhaustive_triples.SpecificRange": 200_000,
+             "more_parts_than_elems": 3_000_000, "zero_size_inputs": 1_000_000, "threshold_divisions": 8_000,
+             "sampled_divisions": 3_000, "empty_pieces": 15_000_000, "secondary_range_checks": 5_000_000,
+             "parts_loaded": 50},
     assumptions=[
         "Domain of block_range: id < num, num >= 1, begin <= end, and no overflow of the round-up quotient as the routine "
         "evaluates it: (end-begin)+num <= max for signed types, (end-begin)+num-1 <= max for unsigned types. At exactly "
@@ -82,7 +97,9 @@ SPEC = dict(
         "SpecificRange domain: thread_beginnings tile [0,N) and the executed range is a sub-range of it, or they tile exactly "
         "the executed range (DistGraph master ranges, NewGeneric).",
         "LC_CSR_Graph local ranges are queried with the same active thread count that was used to construct the graph.",
-        "DistGraph host ranges (computeMasters) are covered only in the thorough tier if the dist harness is present; "
-        "the underlying OfflineGraph::divideByNode and block_range<uint64_t> calls are covered here directly.",
+        "DistGraph host ranges (libcusp computeMasters, all three master distributions, decompose factor, scale factors "
+        ">= 1) are covered only in the thorough tier (dist build, 1..4 MPI hosts; BALANCED_MASTERS also for 1..12 simulated "
+        "hosts); the empty graph is not passed to BALANCED_MASTERS_AND_EDGES (it divides by the node count). The quick "
+        "tier covers the underlying OfflineGraph::divideByNode and block_range<uint64_t> calls directly.",
     ],
 )
